@@ -171,3 +171,20 @@ func factsProposalBytes() {
 	}
 	known(name, typ, "true", fmt.Sprintf("%d Propose calls, each given the result of a Marshal call of its own", n))
 }
+
+// C03/C04/C05: the raft node is configured with the stored log as it is - no Applied index that would make raft skip
+// the committed entries a restarted replica has to replay into its (in-memory) index, no other field beyond the seven
+// the model's boot rule knows.
+func init() { extraExtractors = append(extraExtractors, factsRaftConfig) }
+
+func factsRaftConfig() {
+	const name, typ = "raft_config_shape", "bool"
+	sn, fd := bodyText("storage/raft/group.go", "", "startRaftNode")
+	if fd == nil {
+		unrec(name, typ, "startRaftNode not found")
+		return
+	}
+	lit := "raftConfig := &etcdRaft.Config{ ID: id, ElectionTick: 10, HeartbeatTick: 1, Storage: storage, MaxSizePerMsg: 4096, MaxInflightMsgs: 256, Logger: logger, }"
+	known(name, typ, b(strings.Contains(sn, lit) && !strings.Contains(sn, "raftConfig.") && strings.Count(sn, "raftConfig") == 3),
+		"startRaftNode: Config{ID, ElectionTick 10, HeartbeatTick 1, Storage, MaxSizePerMsg, MaxInflightMsgs, Logger} and nothing set afterwards (in particular no Applied)")
+}
